@@ -227,7 +227,13 @@ def regression_replays(prop, harness_for):
         if not os.path.exists(p):
             continue
         mod, libcfg = case_meta(p)
-        code, key, _ = replay_case(harness_for(libcfg), mod, p, libcfg)
+        try:
+            h = harness_for(libcfg)
+        except Exception:
+            if libcfg in ("fuzz", "tsan", "asan"):
+                continue  # sanitizer build unavailable here: that replay cannot be judged
+            raise
+        code, key, _ = replay_case(h, mod, p, libcfg)
         res.append(("fixed", e, p, code, key))
     for e in opn.get(prop, []):
         if not e["replay"]:
@@ -236,7 +242,13 @@ def regression_replays(prop, harness_for):
         if not os.path.exists(p):
             continue
         mod, libcfg = case_meta(p)
-        code, key, _ = replay_case(harness_for(libcfg), mod, p, libcfg)
+        try:
+            h = harness_for(libcfg)
+        except Exception:
+            if libcfg in ("fuzz", "tsan", "asan"):
+                continue
+            raise
+        code, key, _ = replay_case(h, mod, p, libcfg)
         res.append(("open", e, p, code, key))
     return res
 
